@@ -318,6 +318,15 @@ impl Monitor for C07 {
         let long = rep % 2 == 1;
         let len = if long { cfg.tier.pick(3_000, 100_000) / (1 + n / 32) } else { 6 * n + rng.usize(30, 300) };
         let mut xs = gen::gen(class, n, len, &mut rng);
+        if rep % 2 == 0 && matches!(class, Class::LinearExact | Class::RampUp | Class::RampDown) && rng.coin() {
+            // the stream starts near 1 and then runs along an (off-grid) line at a level of 1e3..1e6:
+            // far from anything that was fixed when the view saw its first sample
+            let level = *rng.pick(&[1.0e3, 1.0e4, 1.0e5, 1.0e6]);
+            let d = *rng.pick(&[0.1, -0.37, 1.3, -0.01]);
+            let start = rng.usize(1, 5);
+            xs = (0..len).map(|i| if i < start { 1.0 + i as f64 * 0.25 } else { level + d * i as f64 }).collect();
+            out.count("trials_ramp_far_from_first_sample", 1);
+        }
         let wide = rng.chance(1, 4);
         if wide {
             widen(&mut xs, &mut rng);
